@@ -73,9 +73,20 @@ def gen_structure(rng, name=None, natoms=None):
     atoms = []
     nmol = rng.randint(1, 3)
     part = 0
+    # with some probability all fragments sit near the same symmetry axis (at different heights along it), so that
+    # several fragments need the same operator and lattice translation
+    shared = None
+    if rng.random() < 0.3:
+        ax = rng.randrange(3)
+        fixed = [rng.choice([0.0, 0.25, 0.5]) for _ in range(3)]
+        shared = (ax, fixed)
+        nmol = max(nmol, 2)
+    height = rng.uniform(0.05, 0.3)
     while len(atoms) < natoms:
         # a new molecule: seed near a special position or at a general one
         mode = rng.choice(['general', 'general', 'near_centre', 'on_centre', 'near_axis'])
+        if shared is not None:
+            mode = 'shared_axis'
         if mode == 'general':
             seed = [rng.uniform(0.05, 0.95) for _ in range(3)]
         elif mode == 'on_centre':
@@ -83,12 +94,21 @@ def gen_structure(rng, name=None, natoms=None):
         elif mode == 'near_centre':
             d = mv(Mi, [rng.uniform(-0.7, 0.7) for _ in range(3)])
             seed = [rng.choice([0.0, 0.5]) + d[k] for k in range(3)]
+        elif mode == 'shared_axis':
+            ax, fixed = shared
+            seed = list(fixed)
+            seed[ax] = height
+            height += rng.uniform(0.25, 0.4)
+            off = [rng.uniform(-0.45, 0.45) for _ in range(3)]
+            off[ax] = 0.0
+            d = mv(Mi, off)
+            seed = [seed[k] + d[k] for k in range(3)]
         else:
             seed = [rng.choice([0.0, 0.25, 0.5]), rng.uniform(0.1, 0.9), rng.choice([0.0, 0.25, 0.5])]
             d = mv(Mi, [rng.uniform(-0.6, 0.6), 0, rng.uniform(-0.6, 0.6)])
             seed = [seed[k] + d[k] for k in range(3)]
         mol = [seed]
-        size = max(1, (natoms - len(atoms)) if nmol <= 1 else rng.randint(1, max(1, natoms - len(atoms))))
+        size = max(1, (natoms - len(atoms)) if nmol <= 1 else rng.randint(1, max(1, (natoms - len(atoms)) // (2 if shared else 1))))
         nmol -= 1
         els = [rng.choice(ELEMENTS) if rng.random() < 0.7 else rng.choice(['I', 'Cs', 'Br', 'K']) for _ in range(size)]
         for j in range(size - 1):
